@@ -126,7 +126,32 @@ func (ex *Exec) strIntrinsic(fn *ssa.Function, name string, args []Value) (Value
 		copy(arr.vals, parts)
 		n := ex.ts.Const(64, uint64(len(parts)))
 		return Slice{arr, ex.ts.Const(64, 0), n, n}, true
+	case "strconv.FormatInt", "strconv.Itoa":
+		v := args[0].(*Term)
+		if v.IsConst() {
+			return nil, false // the real strconv code runs on concrete values
+		}
+		if name == "strconv.FormatInt" && !(args[1].(*Term).IsConst() && args[1].(*Term).val == 10) {
+			panic(unsupported("FormatInt of a symbolic value in a base other than 10"))
+		}
+		return ex.numToken(v), true
+	case "strconv.ParseInt":
+		b := ex.bytesOf(args[0])
+		if v, ok := ex.numTokenValue(b); ok {
+			return Tuple{v, Iface{}}, true
+		}
+		if allConst(b) {
+			return nil, false
+		}
+		v, ok := ex.parseSigned(b)
+		if ex.decide(ok) {
+			return Tuple{v, Iface{}}, true
+		}
+		return Tuple{ex.ts.Const(64, 0), ex.errValue("parse")}, true
 	case "strconv.ParseUint":
+		if allConst(ex.bytesOf(args[0])) {
+			return nil, false
+		}
 		bits := uint(ex.concretize(args[2].(*Term)))
 		v, ok := ex.parseDigits(ex.bytesOf(args[0]), bits)
 		if ex.decide(ok) {
@@ -135,7 +160,13 @@ func (ex *Exec) strIntrinsic(fn *ssa.Function, name string, args []Value) (Value
 		return Tuple{ex.ts.Const(64, 0), ex.errValue("parse")}, true
 	case "strconv.Atoi":
 		b := ex.bytesOf(args[0])
-		v, ok := ex.parseDigits(b, 63)
+		if v, ok := ex.numTokenValue(b); ok {
+			return Tuple{v, Iface{}}, true
+		}
+		if allConst(b) {
+			return nil, false
+		}
+		v, ok := ex.parseSigned(b)
 		if ex.decide(ok) {
 			return Tuple{v, Iface{}}, true
 		}
@@ -147,4 +178,78 @@ func (ex *Exec) strIntrinsic(fn *ssa.Function, name string, args []Value) (Value
 		return nil, true
 	}
 	return nil, false
+}
+
+func allConst(b []*Term) bool {
+	for _, t := range b {
+		if !t.IsConst() {
+			return false
+		}
+	}
+	return true
+}
+
+// Numeric tokens: a symbolic integer that has to travel through real byte arrays and the real line framing is
+// rendered as 16 bytes 'a'+nibble (inside the protocol alphabet, never a digit, LF, ':' or '/'); ParseInt/Atoi of
+// exactly such a run returns the original term. The native replay uses the real decimal rendering.
+type numTok struct {
+	b []*Term
+	v *Term
+}
+
+func (ex *Exec) numToken(v *Term) Str {
+	v = ex.ts.SExt(v, 64)
+	b := make([]*Term, 16)
+	for k := 0; k < 16; k++ {
+		hi := 63 - 4*k
+		nib := ex.ts.ZExt(ex.ts.Extract(v, hi, hi-3), 8)
+		b[k] = ex.ts.Bin(OpAdd, nib, ex.ts.Const(8, 'a'))
+	}
+	toks, _ := ex.side["numtok"].(map[int]*numTok)
+	if toks == nil {
+		toks = map[int]*numTok{}
+		ex.side["numtok"] = toks
+	}
+	toks[b[0].id] = &numTok{b, v}
+	ex.stubsUsed["strconv: symbolic integers travel as 16-letter tokens (bijection)"]++
+	return Str{b}
+}
+
+func (ex *Exec) numTokenValue(b []*Term) (*Term, bool) {
+	if len(b) != 16 {
+		return nil, false
+	}
+	toks, _ := ex.side["numtok"].(map[int]*numTok)
+	t, ok := toks[b[0].id]
+	if !ok {
+		return nil, false
+	}
+	for k := range b {
+		if b[k] != t.b[k] {
+			return nil, false
+		}
+	}
+	return t.v, true
+}
+
+// parseSigned: exact decimal model for short symbolic strings: optional sign, 1..18 digits.
+func (ex *Exec) parseSigned(b []*Term) (*Term, *Term) {
+	if len(b) == 0 {
+		return ex.ts.Const(64, 0), ex.ts.F
+	}
+	if len(b) > 19 {
+		panic(unsupported("ParseInt of a long symbolic string"))
+	}
+	isMinus := ex.ts.Eq(b[0], ex.ts.Const(8, '-'))
+	isPlus := ex.ts.Eq(b[0], ex.ts.Const(8, '+'))
+	// unsigned reading of the whole string and of the string without its first byte
+	vAll, okAll := ex.parseDigits(b, 63)
+	if len(b) == 1 {
+		return vAll, okAll
+	}
+	vRest, okRest := ex.parseDigits(b[1:], 63)
+	signed := ex.ts.Or(isMinus, isPlus)
+	val := ex.ts.Ite(signed, ex.ts.Ite(isMinus, ex.ts.Neg(vRest), vRest), vAll)
+	ok := ex.ts.Ite(signed, okRest, okAll)
+	return val, ok
 }
